@@ -53,7 +53,7 @@ class ExceptionsEmitter:
         generated_code, alias_names, status_codes = self.visitor.visit(spec, context)
 
         # Update registry if we have a client package name (shared core scenario)
-        if client_package_name and self._is_shared_core(output_dir):
+        if client_package_name and self._is_shared_core(output_dir, client_package_name):
             all_codes = self._update_registry(registry_path, client_package_name, status_codes)
             # Regenerate with ALL codes from registry
             generated_code, alias_names = self._generate_for_codes(all_codes, context)
@@ -74,21 +74,27 @@ class ExceptionsEmitter:
 
         return [file_path], alias_names
 
-    def _is_shared_core(self, core_dir: str) -> bool:
+    def _is_shared_core(self, core_dir: str, client_package_name: str | None = None) -> bool:
         """Check if this core package is shared between multiple clients.
 
         Args:
             core_dir: Path to the core package directory
+            client_package_name: Dotted name of the client package being generated
 
         Returns:
-            True if the core package is outside the immediate client package
+            True if the core package lies outside the client package (any number of package levels deep)
         """
-        # If overall_project_root is set and different from the core dir's parent,
-        # we're in a shared core scenario
+        if client_package_name and self.core_package_name:
+            # The core is private to the client exactly when it is a sub-package of the client package;
+            # everything else (sibling, top-level, arbitrarily nested) may be shared with other clients.
+            return not (
+                self.core_package_name == client_package_name
+                or self.core_package_name.startswith(client_package_name + ".")
+            )
+        # Without the package names fall back to the directory layout relative to the project root
         if self.overall_project_root:
             core_path = Path(core_dir).resolve()
             project_root = Path(self.overall_project_root).resolve()
-            # Check if there are other client directories at the same level
             parent_dir = core_path.parent
             return parent_dir == project_root or parent_dir.parent == project_root
         return False
